@@ -1241,6 +1241,21 @@ def targeted_programs():
                         {"id": "b", "op": "ml_label", "mv": 4, "dv": 19, "args": ["y"]},
                         st("c", "add", 17, ["a", "b"])], "outs": ["c"]})
     P.append({"nodes": [{"id": "a", "op": "ml_scaler", "mv": 5, "dv": 17, "args": ["x"]}], "outs": ["a"]})
+    # TreeEnsemble (ai.onnx.ml 5 only): raises the ml import to 5 next to ml3 / ml4 operators, legacy ml-1 models, in bodies
+    P.append({"nodes": [{"id": "a", "op": "ml_tree", "mv": 5, "dv": 17, "args": ["x"]}], "outs": ["a"]})
+    P.append({"nodes": [{"id": "a", "op": "ml_tree", "mv": 5, "dv": 17, "args": ["x"]},
+                        {"id": "b", "op": "ml_label", "mv": 3, "dv": 19, "args": ["y"]},
+                        {"id": "c", "op": "ml_label", "mv": 4, "dv": 17, "args": ["a"]},
+                        st("d", "add", 17, ["b", "c"])], "outs": ["d"]})
+    P.append({"nodes": [{"id": "m", "op": "inline", "model": {"kind": "oldx", "body": "softmax3_reshape", "opset": 11, "ml": ["le2", 2]}, "args": ["x"]},
+                        {"id": "i", "op": "if", "mv": 17, "cond": "c",
+                         "then": {"nodes": [{"id": "t", "op": "ml_tree", "mv": 5, "dv": 17, "args": ["y"]}], "out": "t"},
+                         "else": {"nodes": [{"id": "e", "op": "ml_scaler", "mv": 3, "dv": 17, "args": ["y"]}], "out": "e"}},
+                        st("d", "add", 17, ["m", "i"]), st("g", "identity", 21, ["d"])], "outs": ["g"]})
+    P.append({"nodes": [{"id": "f", "op": "func", "name": "ftree", "params": ["p"], "args": ["x"],
+                         "body": {"nodes": [{"id": "q", "op": "ml_label", "mv": 3, "dv": 17, "args": ["p"]}], "out": "q"}},
+                        {"id": "t", "op": "ml_tree", "mv": 5, "dv": 18, "args": ["y"]},
+                        st("d", "add", 17, ["f", "t"])], "outs": ["d", "f"]})
     # a function whose body mixes versions, next to a converted node
     P.append({"nodes": [{"id": "f", "op": "func", "name": "fmix", "params": ["p"], "args": ["x"],
                          "body": {"nodes": [st("q", "rmean", 17, ["p"], axis=0), st("r", "rmax", 18, ["q"], axis=1)], "out": "r"}},
